@@ -43,6 +43,12 @@ def check_states(run, states):
         d = dict(t.split("=", 1) for t in a.split())
         got = {"href": s["href"], "size": s["hrefsize"], "comps": s["comps"]}
         want = {"href": d.get("href"), "size": d.get("size"), "comps": d.get("comps")}
+        # get_origin (Model/ParseSpecial.getOriginR, Props/C01.url_origin_is_standard_partial) - unless the URL inside a blob URL
+        # has a host that only the IDNA oracle can answer
+        if "origin" in s and d.get("origin") not in (None, "need-idna"):
+            got["origin"] = s["origin"]
+            want["origin"] = d.get("origin")
+            run.extra["urlrec_model_origins_compared"] = run.extra.get("urlrec_model_origins_compared", 0) + 1
         if d.get("layout") != d.get("href") or d.get("shape") != "1":
             bad.append({"what": "model href != layout(toL) - the theorem's hypothesis RecOk fails on a real state", "state": desc, "line": line})
         elif got != want:
